@@ -470,6 +470,22 @@ def make_async_handler(rec, hdef, bus):
                     rec.log('HOp', act=act, op='idle')
                 elif k == 'rb':
                     _read_bus(rec, act, event)
+                elif k == 'stop':   # bus.stop() called from inside a handler (the caller id of the StopB/StopE lines is 1000 + activation)
+                    sb = rec.buses[op[1]]
+                    rec.log('StopB', d=1000 + act, b=sb.name, tmo=-1, running=bool(sb._is_running))
+                    sexc = ''
+                    rec.sleepers += 1
+                    try:
+                        await sb.stop()
+                    except asyncio.CancelledError:
+                        raise
+                    except BaseException as ex:  # noqa
+                        if isinstance(ex, (vloop.LoopAbort, GeneratorExit, KeyboardInterrupt, SystemExit)):
+                            raise
+                        sexc = type(ex).__name__
+                    finally:
+                        rec.sleepers -= 1
+                    rec.log('StopE', d=1000 + act, b=sb.name, exc=sexc)
                 elif k == 'raise':
                     ex = _RAISES.get(op[1] if op[1:] else '', PuppetError)('raised by %s' % hdef['id'])
                     rec.raised['a%d' % act] = ex
@@ -631,6 +647,11 @@ async def driver(rec, i, ops, state):
                 if tmo is not None:
                     rec.sleepers -= 1
             rec.log('ExpE', d=i, x=xid, b=b.name, e=rec.eid(got) if got is not None else 0, err=err)
+        elif k == 'on':  # bus.on(pattern, handler) at run time for a handler the scenario declares `late`
+            hd = next(h for h in rec.scn['handlers'] if h['id'] == op[1])
+            xid = state['nexp'] = state.get('nexp', 0) + 1     # run-time registrations (expect temporaries and late handlers) share one numbering
+            rec.buses[hd['bus']].on(hd['pat'], hd['_fn'])
+            rec.log('Reg', d=i, x=xid, b=hd['bus'], h=hd['id'], pat=hd['pat'])
         elif k == 'cancel':  # cancel another driver task
             t = state['tasks'].get(op[1])
             if t is not None and not t.done():
@@ -742,7 +763,8 @@ async def _main(rec, scn, probes):
         rec.handler_label[(id(b), id(fn))] = hd['id']
         if kind == 'fwd':
             rec.handler_label[(id(b), id(fn))] = hd['id']
-        b.on(hd['pat'], fn)
+        if not hd.get('late'):        # late handlers are registered at run time by a driver (op `on`)
+            b.on(hd['pat'], fn)
         hd['_fn'] = fn
     if probes is not None:
         probes.attach(rec)
